@@ -7,6 +7,7 @@ from ..astutil import call_name, compare_norm, dotted, short, u
 from ..core import Report
 from ..ctx import sites
 from ..frontend import Repo
+from ..rules import cell_name, names_assigned_const, names_augmented
 from . import typestate_common as TC
 
 DB = "reactivex/operators/_debounce.py"
@@ -38,13 +39,19 @@ def check(repo: Repo, rep: Report) -> None:
         root = repo.fn(DB, f"{name}.subscribe")
         outer = {k: root.child(k) for k in ("on_next", "on_error", "on_completed")}
         rep.require(all(outer.values()), f"outer handlers of {name}")
+        # roles: the id is the cell the element handler increments; the presence flag the cell it sets True
+        ids = names_augmented(outer["on_next"], ast.Add)
+        present = names_assigned_const(outer["on_next"], True)
+        rep.require(len(ids) == 1 and len(present) == 1, f"{name}: id cell / presence flag")
+        idc, flag = ids[0], present[0]
+        has_flag = lambda s_: any(p_ and cell_name(e_) == flag for e_, p_ in s_.ctx.guards)
         # id bumps
         for k, h in outer.items():
-            bumps = [s for s in sites(h) if isinstance(s.node, ast.AugAssign) and "_id" in u(s.node.target) and isinstance(s.node.op, ast.Add)]
+            bumps = [s for s in sites(h) if isinstance(s.node, ast.AugAssign) and cell_name(s.node.target) == idc and isinstance(s.node.op, ast.Add)]
             ok = len(bumps) == 1 and not [b for b in bumps[0].ctx.branch if b[1] != "try"]
             rep.ob("R1-stale-timer", h, f"{name}.{k}: id bumped", ok,
                    f"{name}: {k} does not advance the id: a timer armed for an earlier element still emits after this notification")
-        cap = [s for s in sites(outer["on_next"]) if isinstance(s.node, ast.Assign) and "_id" in u(s.node.value) and isinstance(s.node.targets[0], ast.Name)]
+        cap = [s for s in sites(outer["on_next"]) if isinstance(s.node, ast.Assign) and cell_name(s.node.value) == idc and isinstance(s.node.targets[0], ast.Name)]
         idv = u(cap[0].node.targets[0]) if cap else None
         # emissions in nested timer/throttle handlers
         n = 0
@@ -53,7 +60,8 @@ def check(repo: Repo, rep: Report) -> None:
                 continue
             n += 1
             gt = TC.guards_text(s)
-            ok = any("has_value" in t and not t.startswith("not") for t in gt) and any(idv and idv in t and "==" in t for t in gt)
+            ok = has_flag(s) and any(p_ and isinstance(e_, ast.Compare) and len(e_.ops) == 1 and isinstance(e_.ops[0], ast.Eq)
+                                     and {cell_name(e_.left), cell_name(e_.comparators[0])} == {idc, idv} for e_, p_ in s.ctx.guards)
             rep.ob("R1-stale-timer", g, f"{name} timer emission under {gt}", ok,
                    f"{name}: the delayed emission is not dominated by `has_value and id == {idv}`: an element is emitted although a "
                    f"newer one arrived (or was already flushed)")
@@ -61,7 +69,7 @@ def check(repo: Repo, rep: Report) -> None:
         oc = outer["on_completed"]
         em = [s for g, s, k in TC.downstream_sites(root, ("on_next",)) if g is oc]
         comp = [s for g, s, k in TC.downstream_sites(root, ("on_completed",)) if g is oc]
-        ok = len(em) == 1 and len(comp) == 1 and any("has_value" in t and not t.startswith("not") for t in TC.guards_text(em[0])) \
+        ok = len(em) == 1 and len(comp) == 1 and has_flag(em[0]) \
             and em[0].index < comp[0].index and not comp[0].ctx.branch
         rep.ob("R2-flush", oc, f"{name}: if has_value: on_next(value); on_completed()", ok,
                f"{name}: the pending element is not flushed (under the presence flag) before completion")
@@ -103,7 +111,13 @@ def check(repo: Repo, rep: Report) -> None:
            "the time of the last emission is not recorded together with the decision to emit")
     # sample
     ss = repo.fn(SM, "sample_observable.subscribe.sample_subscribe")
-    em = [s for s in sites(ss) if isinstance(s.node, ast.Call) and dotted(s.node.func) == "observer.on_next"]
-    rs = [s for s in sites(ss) if isinstance(s.node, ast.Assign) and u(s.node.targets[0]) == "has_value" and u(s.node.value) == "False"]
-    ok = len(em) == 1 and len(rs) == 1 and em[0].ctx.branch == rs[0].ctx.branch and any("has_value" in t and not t.startswith("not") for t in TC.guards_text(em[0]))
+    sroot = repo.fn(SM, "sample_observable.subscribe")
+    src_next = sroot.child("on_next")
+    rep.require(src_next is not None, "sample: source element handler")
+    present = names_assigned_const(src_next, True)
+    rep.require(len(present) == 1, "sample: presence flag")
+    flag = present[0]
+    em = [s for g, s, k in TC.downstream_sites(sroot, ("on_next",)) if g is ss]
+    rs = [s for s in sites(ss) if isinstance(s.node, ast.Assign) and cell_name(s.node.targets[0]) == flag and u(s.node.value) == "False"]
+    ok = len(em) == 1 and len(rs) == 1 and em[0].ctx.branch == rs[0].ctx.branch and any(p_ and cell_name(e_) == flag for e_, p_ in em[0].ctx.guards)
     rep.ob("R4-sample-once", ss, "if has_value: has_value = False; on_next(value)", ok, "sample emits a value more than once, or without one being pending")
